@@ -185,11 +185,80 @@ static J gen_special(Chooser &ch)
   if (ch.chance(30)) root["force surface temperature"] = true;
   g::Opt none; none.grains = false; none.velocity = false; none.custom_tags = false;
   g::FM m;
-  const int special = static_cast<int>(ch.range(0, 2));
+  const int special = static_cast<int>(ch.range(0, 3));
   const bool ridge_case = special == 0;
   J c = J::obj();
   J qs = J::arr();
   const std::array<double, 2> ctr = g::gen_centre(ch, fr);
+  if (special == 3)
+    {
+      // (4) a mass conserving slab whose options sit on the edge of their range - no taper at the tip ('taper distance' 0), no extra
+      // fore-arc cooling ('forearc cooling factor' 0 or 1), coupling at the surface - probed exactly on the tip line of a vertical slab
+      // (distance along the slab == its length), in the fore-arc wedge above a dipping slab next to the trench, and on the trench line
+      g::Frame fc; fc.sph = false; fc.H = ch.lattice(800e3, 1500e3, 100e3);
+      J rootc = J::obj();
+      g::frame_to_json(fc, rootc);
+      const bool vertical = ch.chance(45);
+      const double x0 = ch.lattice(-500e3, 500e3, 50e3), y0 = ch.lattice(-500e3, 500e3, 50e3), L = ch.lattice(200e3, 500e3, 50e3), thick = ch.lattice(60e3, 150e3, 10e3);
+      const double dip = vertical ? 90.0 : ch.lattice(25, 70, 5);
+      J feat = J::obj();
+      feat["model"] = "subducting plate"; feat["name"] = "slab";
+      feat["coordinates"] = J::arr({jp(x0, y0 - 800e3), jp(x0, y0 + 800e3)});
+      feat["dip point"] = jp(x0 + 5e6, y0);
+      J seg = J::obj();
+      seg["length"] = L; seg["thickness"] = J::arr({J(thick)}); seg["angle"] = J::arr({J(dip)});
+      feat["segments"] = J::arr({seg});
+      J t = J::obj();
+      t["model"] = "mass conserving";
+      t["ridge coordinates"] = J::arr({J::arr({jp(x0 - ch.lattice(1500e3, 4000e3, 100e3), y0 - 3000e3), jp(x0 - ch.lattice(1500e3, 4000e3, 100e3), y0 + 3000e3)})});
+      t["spreading velocity"] = ch.lattice(0.02, 0.1, 0.01);
+      t["subducting velocity"] = ch.lattice(0.02, 0.1, 0.01);
+      t["coupling depth"] = ch.pick<double>({0.0, 50e3, 80e3, 100e3});
+      t["forearc cooling factor"] = ch.pick<double>({0.0, 0.0, 1.0, 10.0});
+      t["taper distance"] = ch.pick<double>({0.0, 0.0, 100e3});
+      t["min distance slab top"] = -ch.lattice(50e3, 200e3, 50e3);
+      t["max distance slab top"] = ch.lattice(100e3, 200e3, 50e3);
+      t["reference model name"] = ch.pick<std::string>({"half space model", "plate model"});
+      if (ch.flip()) { t["apply spline"] = true; t["number of points in spline"] = static_cast<int>(ch.range(3, 8)); }
+      feat["temperature models"] = J::arr({t});
+      rootc["features"] = J::arr({feat});
+      const double a = dip * DEG;
+      for (int i = 0; i < 24; ++i)
+        {
+          const int w = static_cast<int>(ch.range(0, 3));
+          const double y = y0 + ch.lattice(-600e3, 600e3, 50e3);
+          J q;
+          if (w == 0 && vertical)
+            { // the tip line: depth == length, anywhere across the thickness and a little to either side of it
+              q = g::make_query(fc, x0 + ch.lattice(-1.5, 1.5, 0.125) * thick, y, L);
+              q["kind"] = "slab-tip-line";
+            }
+          else if (w == 1)
+            { // the wedge above the slab next to the trench: a few km to a few hundred km from the trench, above the slab top
+              const double hx = ch.pick<double>({1e3, 5e3, 20e3, 60e3, 150e3});
+              const double top = vertical ? L : hx * std::tan(a); // depth of the slab top below this place (vertical slab: none)
+              q = g::make_query(fc, x0 + hx, y, ch.pick<double>({0.0, 1.0, 0.25, 0.5, 0.9, 0.999}) * std::min(top, 200e3));
+              q["kind"] = "fore-arc-above-slab";
+            }
+          else if (w == 2)
+            { // on the trench line at the surface and below it
+              q = g::make_query(fc, x0, y, ch.pick<double>({0.0, 1.0, 1e3, 30e3}));
+              q["kind"] = "on-trench-line";
+            }
+          else
+            { // inside the slab, anywhere
+              // `al` along the top surface, `fromtop` below it (the body lies on the lower side: towards (-sin a, +cos a) in (x, depth))
+              const double al = ch.real(0, 1) * L, fromtop = ch.real(0, 1) * thick;
+              q = g::make_query(fc, x0 + al * std::cos(a) - fromtop * std::sin(a), y, al * std::sin(a) + fromtop * std::cos(a));
+              q["kind"] = "inside-slab";
+            }
+          qs.push(q);
+        }
+      c["world"] = rootc.dump();
+      c["queries"] = qs;
+      c["props"] = g::gen_props(ch, 5);
+      return c;
+    }
   if (special == 2)
     {
       // (3) a plume with a pointed top (semi-major axis 0 at its first cross section, min depth above it) or a pointed bottom, probed
@@ -302,6 +371,6 @@ int main(int argc, char **argv)
   return run_main("C13", argc, argv,
   {
     {"total_finite", "worlds with 1..4 features of every type, all deterministic models incl. cooling models, operations, ranges (physical parameter domain of DESIGN section 3) x 4..30 queries at degenerate locations (polygon vertex/edge, trench coordinate/chord, dip point, slab tip region, below trench, poles, +-180, planet centre incl. |p|=1e-300, far away, model bottom, feature depth limits) x the generated list and a list with every property kind; each case runs in its own process so a crash is a failure of the case. Non-trivial: degenerate kinds", 150, gen_total, check_total, 100, true, true},
-    {"special_configurations", "oceanic plate with a half-space / plate model whose ridge runs through the plate, probed exactly on the ridge at depth 0 and below (age zero); area feature whose point-wise max depth pinches out to the min depth along one edge, with a linear model, probed on that edge and its end points at exactly that depth (zero thickness). Same oracle: finite values or a std::exception; plume with a pointed top or bottom (semi-major axis 0 at its first / last cross section, min depth above the first section) probed exactly on its axis at the section depths, between and beyond them", 100, gen_special, check_total, 100, true, true},
+    {"special_configurations", "mass conserving slab with options on the edge of their range (taper distance 0, forearc cooling factor 0 / 1 / 10, coupling depth 0) probed on the tip line of a vertical slab, in the wedge above the slab next to the trench, on the trench line and inside; oceanic plate with a half-space / plate model whose ridge runs through the plate, probed exactly on the ridge at depth 0 and below (age zero); area feature whose point-wise max depth pinches out to the min depth along one edge, with a linear model, probed on that edge and its end points at exactly that depth (zero thickness). Same oracle: finite values or a std::exception; plume with a pointed top or bottom (semi-major axis 0 at its first / last cross section, min depth above the first section) probed exactly on its axis at the section depths, between and beyond them", 100, gen_special, check_total, 100, true, true},
   });
 }
